@@ -746,29 +746,48 @@ class FastEngine(Engine):
     path condition and no solver call is needed; it is recorded as a decision with a single feasible outcome, exactly as the base
     class records a solver-decided one, so the re-execution of a decision prefix stays aligned."""
 
-    _cpc, _cn, _csubs = None, 0, None
+    _cpc, _cn, _csubs, _cknown = None, 0, None, None
     _SKIP = (z3.Z3_OP_SLEQ, z3.Z3_OP_SGEQ, z3.Z3_OP_ULEQ, z3.Z3_OP_UGEQ)  # range constraints of the inputs: never sub-terms of a condition
+
+    @staticmethod
+    def _strip(c):
+        pol = True
+        while z3.is_not(c):
+            c, pol = c.arg(0), not pol
+        return c, pol
 
     def _atoms(self):
         if self._cpc is not self.pc or self._cn > len(self.pc):
-            self._cpc, self._cn, self._csubs = self.pc, 0, []
+            self._cpc, self._cn, self._csubs, self._cknown = self.pc, 0, [], {}
         for c in self.pc[self._cn:]:
-            pol = True
-            while z3.is_not(c):
-                c, pol = c.arg(0), not pol
-            if z3.is_app(c) and c.decl().kind() not in self._SKIP and not (z3.is_true(c) or z3.is_false(c)):
+            c, pol = self._strip(c)
+            if z3.is_app(c) and c.decl().kind() not in self._SKIP and not (z3.is_true(c) or z3.is_false(c)) and c.get_id() not in self._cknown:
                 self._csubs.append((c, z3.BoolVal(pol)))
+                self._cknown[c.get_id()] = pol
         self._cn = len(self.pc)
         return self._csubs
+
+    def known(self, cond):
+        """True / False if the (simplified) condition is literally decided on this path, else None."""
+        cond = z3.simplify(cond)
+        if z3.is_true(cond) or z3.is_false(cond):
+            return z3.is_true(cond)
+        self._atoms()
+        a, pol = self._strip(cond)
+        v = self._cknown.get(a.get_id())
+        return None if v is None else (v == pol)
 
     def decide(self, cond):
         cond = z3.simplify(cond)
         if z3.is_true(cond) or z3.is_false(cond) or self._pos < len(self._pending) or not self.pc:
             return super().decide(cond)  # constants, replay of the decision prefix (implied decisions are part of it), first decision
-        subs = self._atoms()
-        c2 = z3.simplify(z3.substitute(cond, *subs)) if subs else cond
-        if z3.is_true(c2) or z3.is_false(c2):
-            d = z3.is_true(c2)
+        d = self.known(cond)
+        if d is None:
+            subs = self._csubs
+            c2 = z3.simplify(z3.substitute(cond, *subs)) if subs else cond
+            if z3.is_true(c2) or z3.is_false(c2):
+                d = z3.is_true(c2)
+        if d is not None:
             self._pending.append([d, False])  # recorded like a solver-decided fork with one feasible outcome
             self._pos += 1
             self.pc.append(cond if d else z3.Not(cond))
@@ -935,7 +954,12 @@ class CaptureHarness:
         def packed():
             r = 0
             for i, rec in enumerate(self.recs):
-                r = ite(V(cur["t"], rec.trigger) != 0, 1 << i, 0) | r
+                v = V(cur["t"], rec.trigger)
+                nz = v != 0
+                if isinstance(nz, SBool) and isinstance(nz.eng, FastEngine):
+                    k = nz.eng.known(nz.e)  # already decided on this path (by the capture process): equal under the path condition
+                    nz = nz if k is None else k
+                r = ite(nz, 1 << i, 0) | r
             return r
 
         def resolve(handle):
